@@ -206,6 +206,8 @@ FLOWS = {
     'simultaneous_rekey': (flow_simultaneous_rekey, {}, {}),
     'simultaneous_ike_rekey': (flow_simultaneous_ike_rekey, {}, {}),
 }
+FLOWS.update({'del_child_A_same_spi': (flow_del_child, {'who': 'A'}, {}), 'del_child_B_same_spi': (flow_del_child, {'who': 'B'}, {}),
+              'del_ike_A_same_spi': (flow_del_ike, {'who': 'A'}, {}), 'rekey_ike_B_same_spi': (flow_rekey_ike, {'who': 'B'}, {})})
 FLOWS.update({f'cross_{ta}_{tb}': (flow_cross, {'ta': ta, 'tb': tb}, {}) for ta in CROSS for tb in CROSS})
 
 
@@ -213,7 +215,17 @@ def h_flow(name, fault_at):
     from symx import core
     eng = core.engine()
     fn, kw, conf = FLOWS[name]
-    n = world.Net(**conf)
+    # flows are concrete apart from the fault position: the kernel model sits BEHIND the netlink socket, so the real request builders, the real
+    # reply parsing and the real error handling of xfrm.py / netlink.py are part of what runs
+    world.SWITCH.install(MODS['xfrm'], wire=True)
+    world.wire_env(MODS)
+    env_setup = None
+    if name.endswith('_same_spi'):
+        # every 4-byte random value (= every CHILD_SA SPI) is the same: inbound and outbound SA of a CHILD_SA share the SPI value, which is
+        # legal - an SA is identified by (destination, protocol, SPI)
+        def env_setup(env):
+            env.urandom_hook = lambda k: b'SPI!' if k == 4 else None
+    n = world.Net(env_setup=env_setup, **conf)
     if name == 'refused_proposal':
         n.confdict['bob']['protect'][0]['encr'] = ['aes128']
         n.confdict['alice']['protect'][0]['encr'] = ['aes256']
@@ -230,6 +242,7 @@ def h_flow(name, fault_at):
 
 def h_delete_request(n_spis, who):
     """an authentic INFORMATIONAL request with a DELETE payload naming arbitrary SPIs / protocol"""
+    world.SWITCH.install(MODS['xfrm'], wire=False)
     from symx import core
     eng = core.engine()
     m = MODS['message']
@@ -267,6 +280,7 @@ def h_delete_request(n_spis, who):
 
 def h_error_response(req_kind):
     """initiator with an outstanding CREATE_CHILD_SA request gets a response carrying one notification of arbitrary type"""
+    world.SWITCH.install(MODS['xfrm'], wire=False)
     from symx import core
     eng = core.engine()
     m = MODS['message']
@@ -298,6 +312,7 @@ def h_error_response(req_kind):
 
 def h_rekey_request(which):
     """responder gets a CHILD_SA rekey request whose REKEY_SA notification names an arbitrary SPI"""
+    world.SWITCH.install(MODS['xfrm'], wire=False)
     from symx import core
     eng = core.engine()
     m = MODS['message']
